@@ -79,6 +79,26 @@ def v_maze(inst: Any, p: Dict[str, Any], ctx: Dict[str, Any]) -> List[Problem]:
     return out
 
 
+def v_maze_walls(inst: Any, p: Dict[str, Any], ctx: Dict[str, Any]) -> List[Problem]:
+    """maze_generation.generate_maze(width, height, key): array of shape (height, width), EMPTY=0 / WALL=1;
+    recursive division: every free cell reachable from every other one, origin free."""
+    R, C = p["rows"], p["cols"]
+    m = np.asarray(inst)
+    if m.shape != (R, C) or not np.isin(m, (0, 1)).all():
+        return [("maze-shape-or-values", f"maze has shape {m.shape} values {np.unique(m).tolist()}, expected ({R},{C}) of 0/1")]
+    out: List[Problem] = []
+    free = m == 0
+    if not free[0, 0]:
+        out.append(("origin-is-wall", "cell (0,0) is a wall"))
+    if not all_connected(free):
+        comp = flood(free, tuple(np.argwhere(free)[0]))
+        out.append(("free-cells-not-connected",
+                    f"{int(free.sum() - comp.sum())} of {int(free.sum())} free cells are sealed off; maze={m.tolist()}"))
+    ctx["count"]["maze_free_cells"] += int(free.sum())
+    ctx["count"]["maze_wall_cells"] += int((~free).sum())
+    return out
+
+
 def v_cleaner(inst: Any, p: Dict[str, Any], ctx: Dict[str, Any]) -> List[Problem]:
     """docs/cleaner.md: recursive-division maze, cells dirty(0)/clean(1)/wall(2); all agents start in the top
     left corner, which is clean; everything else is dirty or wall; the non-wall cells are one region."""
@@ -683,7 +703,7 @@ def v_sudoku_db_row(inst: Any, p: Dict[str, Any], ctx: Dict[str, Any]) -> List[P
 
 
 VALIDATORS = {
-    "maze": v_maze, "cleaner": v_cleaner, "connector_uniform": v_connector_uniform,
+    "maze": v_maze, "maze_walls": v_maze_walls, "cleaner": v_cleaner, "connector_uniform": v_connector_uniform,
     "connector_walk": v_connector_walk, "lbf": v_lbf,
     "robot_warehouse": v_robot_warehouse, "snake": v_snake, "game_2048": v_game_2048, "tetris": v_tetris,
     "sokoban": v_sokoban, "pac_man": v_pac_man, "minesweeper": v_minesweeper, "sudoku": v_sudoku,
